@@ -95,7 +95,11 @@ CONSTANTS MaxRoots,   \* enumeration bound on the number of roots on the command
 (*           both provide header.html, the directory given last wins       *)
 (*           (driver.make iterates options.templatedir, a list).  viacfg:  *)
 (*           the sources are named by `add-package` in a configuration     *)
-(*           file instead of on the command line.  permute: listing orders other    *)
+(*           file instead of on the command line: packages under the key   *)
+(*           add-package, modules under add-module, the two spellings of   *)
+(*           one append option; the source paths come in the order the     *)
+(*           keys are written in the file (_configparser.ValidatorParser   *)
+(*           keeps the order of the file).  permute: listing orders other    *)
 (*           than the sorted one, and the second-run-of-a-process case,    *)
 (*           are explored for this variant                                 *)
 Universe == IF Source = "enum" THEN JsonDeserialize(IOEnv.C18_UNIVERSE)
@@ -130,7 +134,9 @@ VARIABLES pid,        \* index of the input (register number)
           setOrder,   \* environment: iteration order of root_names in this process
           siteOrder,  \* environment: iteration order of every other set of names (aligned with u.sites)
           listing,    \* environment: dir path -> order the file system gave (as taken so far)
-          outdir,     \* environment: "fresh" | "reused" | "sameproc" (fresh directory, second run of its process)
+          outdir,     \* environment: "fresh" | "reused" | "sameproc" (fresh directory, second run of its process) |
+                      \* "afterabort" (fresh directory; the process first ran a build that ABORTED part-way through its
+                      \* pages - a directory sitting at the path of a page: IsADirectoryError in _writeDocsFor)
           projname,   \* System.projectname as a sequence of root ids (<<0>> = the given name)
           out         \* the output directory: file id -> content
 vars == <<pid, u, roots, named, var, clock, phase, pc, nroot, stack, mods, setOrder, siteOrder, listing, outdir, projname, out>>
@@ -138,7 +144,8 @@ vars == <<pid, u, roots, named, var, clock, phase, pc, nroot, stack, mods, setOr
 \* driver.get_system (driver.py:36-45)
 EpochFixes(v) == v.epochset /\ (EpochRule = "is_set" \/ v.epoch # 0)
 \* number of the first member table of this run (0 = they start at id1)
-\* TemplateWriter.writeIndividualFiles resets ChildTable.last_id: whatever the process did before (outdir = "sameproc")
+\* TemplateWriter.writeIndividualFiles resets ChildTable.last_id BEFORE it writes the first page (writer.py:85-89): whatever
+\* the process did before - a complete build (outdir = "sameproc") or one that aborted among its pages ("afterabort")
 IdBase == 0
 \* number of the first expandable sidebar item (only with --sidebar-expand-depth > 1)
 \* ... also reset by writeIndividualFiles (fix d031189)
@@ -159,7 +166,7 @@ ById(a, b) == a.id < b.id
 Identity(ents) == SortSeq(ents, ById)
 \* in the "prev" phase the environment is the reference one (bound: see notes/C18.md)
 ListChoices(path) == IF phase = "prev" \/ Source = "file" THEN {}
-                     ELSE IF Len(roots) <= PermuteUpTo /\ outdir # "sameproc" /\ var.permute THEN SetToSeqs(Rng(DirRec(path).ents))
+                     ELSE IF Len(roots) <= PermuteUpTo /\ outdir \notin {"sameproc", "afterabort"} /\ var.permute THEN SetToSeqs(Rng(DirRec(path).ents))
                      ELSE {Identity(DirRec(path).ents)}
 FileListing(path) ==
   LET k == CHOOSE i \in DOMAIN u.dirs : u.dirs[i].path = path IN FileRuns[pid].listing[k]
@@ -175,7 +182,7 @@ Init ==
           /\ u = Universe
           /\ roots = EnumProjects[pid].roots /\ named = EnumProjects[pid].named /\ var = EnumProjects[pid].var
           /\ outdir \in {"fresh"} \cup (IF Len(EnumProjects[pid].roots) <= ReuseUpTo THEN {"reused"} ELSE {})
-                                   \cup (IF Len(EnumProjects[pid].roots) <= SameProcUpTo /\ EnumProjects[pid].var.permute THEN {"sameproc"} ELSE {})
+                                   \cup (IF Len(EnumProjects[pid].roots) <= SameProcUpTo /\ EnumProjects[pid].var.permute THEN {"sameproc", "afterabort"} ELSE {})
      ELSE /\ pid \in 1..NProjects
           /\ u = FileRuns[pid].u
           /\ roots = FileRuns[pid].roots /\ named = FileRuns[pid].named /\ var = FileRuns[pid].var
